@@ -162,6 +162,11 @@ class HarnessError(Exception):
 MAP_LIMIT = int(os.environ.get("VERIF_MAP_LIMIT", "30000"))
 
 
+def relieve_mappings(ctx=None):
+    """Public name: long single cases (state-machine histories, driver runs) call it between steps."""
+    _relieve_mappings(ctx)
+
+
 def _relieve_mappings(ctx=None):
     """Every XLA executable keeps several memory mappings; a process that has compiled a few thousand of them reaches the kernel's
     vm.max_map_count (65530) and the next compilation fails with "LLVM compilation error: Cannot allocate memory" and kills the process.
@@ -210,8 +215,7 @@ class Ctx:
 
     def case(self, case: Any, nontrivial: bool = True, classes=(), summary: Any = None):
         self.evaluations += 1
-        if self.evaluations % 16 == 0:
-            _relieve_mappings(self)
+        _relieve_mappings(self)
         for c in classes:
             self.count(c)
         if nontrivial:
